@@ -336,49 +336,106 @@ def parse_detector_grammar(tokens):
     return nts, rules, slotmap, cc_kinds, tt_kinds
 
 
+PINNED = os.path.join(os.path.dirname(os.path.abspath(__file__)), 'pinned_consts.json')
+FALLBACKS = []
+
+
 def parse_consts():
-    ph = read('Compiler/include/parse.hpp')
-    m = re.search(r'#define\s+THEO_MACRO_PASSES\s+(\d+)', ph)
-    if not m:
-        raise Refuse('parse.hpp: THEO_MACRO_PASSES not found')
-    passes = int(m.group(1))
+    """every constant is extracted on its own; one whose source shape is not recognised (a refactoring moved or respelled it)
+    falls back to its last extracted value (translator/pinned_consts.json, committed) and is reported as a FALLBACK: for that
+    constant the tie between model and source is then the differential correspondence alone"""
+    import json
+    pinned = json.load(open(PINNED)) if os.path.exists(PINNED) else {}
+    vals = {}
+    full = None
+    try:
+        full = parse_consts_strict()
+    except Refuse:
+        pass
+    names = ['passes', 'stdtext', 'stdname', 'phrase', 'genstd', 'guards', 'rootfs']
+    if full is not None:
+        passes, stdtext, stdname, phrase, genstd, guards, rootfs = full
+        return full
+    # something was not recognised: extract item by item
+    for nm in names:
+        try:
+            vals[nm] = parse_consts_strict(only=nm)
+        except Refuse as e:
+            if nm not in pinned:
+                raise
+            v = pinned[nm]
+            vals[nm] = bytes.fromhex(v) if nm == 'stdtext' else (tuple(v) if nm == 'rootfs' else v)
+            FALLBACKS.append('Consts.%s: %s' % (nm, e))
+    return tuple(vals[nm] for nm in names)
+
+
+def parse_consts_strict(only=None):
+    def want(nm):
+        return only is None or only == nm
+
+    passes = stdtext_ = stdname = phrase = genstd = rootfs = None
+    if want('passes'):
+        ph = read('Compiler/include/parse.hpp')
+        m = re.search(r'#define\s+THEO_MACRO_PASSES\s+(\d+)', ph)
+        if not m:
+            raise Refuse('parse.hpp: THEO_MACRO_PASSES not found')
+        passes = int(m.group(1))
+        pc = read('Compiler/src/parse.cpp')
+        if not re.search(r'apply_macros\(\s*(?:std::move\(\s*)?mer\.tokens\s*\)?\s*,\s*mer\.macros\s*,\s*THEO_MACRO_PASSES\s*\)', pc):
+            raise Refuse('parse.cpp: apply_macros is no longer called with THEO_MACRO_PASSES')
+        if only:
+            return passes
     pc = read('Compiler/src/parse.cpp')
-    m = re.search(r'\bstandard_macros\s*=\s*((?:"(?:[^"\\]|\\.)*"\s*)+);', pc, flags=re.S)
-    if not m:
-        raise Refuse('parse.cpp: standard_macros literal not found')
-    lit = ''.join(re.findall(r'"((?:[^"\\]|\\.)*)"', m.group(1), flags=re.S))   # adjacent literals concatenate
-    lit = lit.replace('\\\n', '')          # line continuations
-    out = bytearray()
-    i = 0
-    while i < len(lit):
-        if lit[i] == '\\':
-            c = lit[i + 1]
-            out.append({'n': 10, 't': 9, '"': 34, '\\': 92}[c])
-            i += 2
-        else:
-            out.append(ord(lit[i]))
-            i += 1
-    # the standard text is entered under a literal name WITHOUT overwriting a supplied file of that name
-    # (insert / emplace / try_emplace — not operator[] or insert_or_assign)
-    m = re.search(r'files\.(?:insert\(\s*(?:std::make_pair\(|\{)|emplace\(|try_emplace\()\s*"([^"]*)"\s*,\s*(?:std::string\(\s*)?standard_macros', pc)
-    if not m:
-        raise Refuse('parse.cpp: standard file insertion changed')
-    stdname = m.group(1)
-    m = re.search(r'\bincl_phrase\s*=\s*"((?:[^"\\]|\\.)*)"\s*;', pc)
-    if not m:
-        raise Refuse('parse.cpp: incl_phrase not found')
-    phrase = m.group(1).replace('\\"', '"')
-    if not re.search(r'apply_macros\(\s*(?:std::move\(\s*)?mer\.tokens\s*\)?\s*,\s*mer\.macros\s*,\s*THEO_MACRO_PASSES\s*\)', pc):
-        raise Refuse('parse.cpp: apply_macros is no longer called with THEO_MACRO_PASSES')
+    if want('stdtext'):
+        m = re.search(r'\bstandard_macros\s*=\s*((?:"(?:[^"\\]|\\.)*"\s*)+);', pc, flags=re.S)
+        if not m:
+            raise Refuse('parse.cpp: standard_macros literal not found')
+        lit = ''.join(re.findall(r'"((?:[^"\\]|\\.)*)"', m.group(1), flags=re.S))   # adjacent literals concatenate
+        lit = lit.replace('\\\n', '')          # line continuations
+        out = bytearray()
+        i = 0
+        while i < len(lit):
+            if lit[i] == '\\':
+                c = lit[i + 1]
+                out.append({'n': 10, 't': 9, '"': 34, '\\': 92}[c])
+                i += 2
+            else:
+                out.append(ord(lit[i]))
+                i += 1
+        stdtext_ = bytes(out)
+        if only:
+            return stdtext_
+    if want('stdname'):
+        # the standard text is entered under a literal name WITHOUT overwriting a supplied file of that name
+        # (insert / emplace / try_emplace — not operator[] or insert_or_assign)
+        m = re.search(r'files\.(?:insert\(\s*(?:std::make_pair\(|\{)|emplace\(|try_emplace\()\s*"([^"]*)"\s*,\s*(?:std::string\(\s*)?standard_macros', pc)
+        if not m:
+            raise Refuse('parse.cpp: standard file insertion changed')
+        stdname = m.group(1)
+        if only:
+            return stdname
+    if want('phrase'):
+        m = re.search(r'\bincl_phrase\s*=\s*"((?:[^"\\]|\\.)*)"\s*;', pc)
+        if not m:
+            raise Refuse('parse.cpp: incl_phrase not found')
+        phrase = m.group(1).replace('\\"', '"')
+        if only:
+            return phrase
     g = read('Compiler/src/gen.cpp')
-    m = re.search(r'if \(file == "([^"]*)"\)\s*return;', g)
-    if not m:
-        raise Refuse('gen.cpp: advanceLine standard-file test changed')
-    genstd = m.group(1)
-    m = re.search(r'\.fs =\s*\{\s*\.name = "([^"]*)",\s*\.line = (-?\d+),\s*\}', strip_comments(g))
-    if not m:
-        raise Refuse('gen.cpp: initial file context (.fs = {.name, .line}) not found')
-    rootfs = (m.group(1), int(m.group(2)))
+    if want('genstd'):
+        m = re.search(r'if \(file == "([^"]*)"\)\s*return;', g)
+        if not m:
+            raise Refuse('gen.cpp: advanceLine standard-file test changed')
+        genstd = m.group(1)
+        if only:
+            return genstd
+    if want('rootfs'):
+        m = re.search(r'\.fs =\s*\{\s*\.name = "([^"]*)",\s*\.line = (-?\d+),\s*\}', strip_comments(g))
+        if not m:
+            raise Refuse('gen.cpp: initial file context (.fs = {.name, .line}) not found')
+        rootfs = (m.group(1), int(m.group(2)))
+        if only:
+            return rootfs
     guards = {}
 
     def guard_of(src, fname):
@@ -442,7 +499,9 @@ def parse_consts():
                 raise
             sys.stderr.write('translator: %s; threshold read off the behaviour of the built code instead (%s)\n' % (e, pr))
             guards[kind] = pr
-    return passes, bytes(out), stdname, phrase, genstd, guards, rootfs
+    if only:
+        return guards
+    return passes, stdtext_, stdname, phrase, genstd, guards, rootfs
 
 
 def emit(name, body):
@@ -458,7 +517,25 @@ def emit(name, body):
             f.write(txt)
 
 
+def group(files, fn):
+    """run one extraction group; if the source shape is not recognised and the generated files of the group exist (they are
+    committed), keep them and report a FALLBACK"""
+    try:
+        fn()
+    except Exception as e:          # Refuse, or the extractor itself tripping over an unexpected source shape
+        if all(os.path.exists(os.path.join(OUT, f)) for f in files):
+            FALLBACKS.append('%s: %s' % (', '.join(files), e))
+        else:
+            raise
+
+
 def main():
+    if '--snapshot' in sys.argv:
+        import json
+        passes, stdtext, stdname, phrase, genstd, guards, rootfs = parse_consts_strict()
+        json.dump({'passes': passes, 'stdtext': stdtext.hex(), 'stdname': stdname, 'phrase': phrase, 'genstd': genstd, 'guards': guards, 'rootfs': list(rootfs)},
+                  open(PINNED, 'w'), indent=1)
+        return 0
     tokens = parse_enum(read('Compiler/include/token.hpp'), 'Type', 'token.hpp')
     nodes = parse_enum(read('Compiler/include/ast.hpp'), 'Type', 'ast.hpp')
     perrs = parse_enum(read('Compiler/include/parse_error.hpp'), 'Type', 'parse_error.hpp')
@@ -473,44 +550,48 @@ def main():
     emit('Errors.lean', enum_ns('PErrT', perrs) + enum_ns('GErrT', gerrs))
     emit('Ops.lean', enum_ns('Op', ops))
 
-    defs, rules = parse_lexer_l()
-    tokval = dict(tokens)
-    body = 'import Theo.Model.Regex\nnamespace Theo.LexGen\nopen Theo\n'
-    body += '/-- rules of lexer.l in order: (pattern, `some kind` | `none` for an empty action) -/\n'
-    body += 'def rules : List (Rx × Option Nat) := [\n'
-    lines = []
-    for pat, rx, kind, _ in rules:
-        if kind is not None and kind not in tokval:
-            raise Refuse('lexer.l: unknown token kind ' + kind)
-        lines.append('  (%s, %s)  -- %s' % (rx_lean(rx), 'none' if kind is None else 'some %d' % tokval[kind], pat))
-    body += ',\n'.join(l.split('  --')[0] for l in lines) + ']\n'
-    body += '/-\n' + '\n'.join(lines) + '\n-/\n'
-    # keyword table: every rule whose pattern is a finite set of literals
-    kws = []
-    for pat, rx, kind, _ in rules:
-        lits = rx_literals(rx)
-        if kind is not None and lits is not None:
-            for l in lits:
-                kws.append((l, tokval[kind]))
-    body += '/-- every literal spelling of every rule with a finite language, with its token kind -/\n'
-    body += 'def keywords : List (Bytes × Nat) := [\n' + ',\n'.join('  (%s, %d)' % (lean_bytes(l), k) for l, k in kws) + ']\n'
-    body += 'end Theo.LexGen\n'
-    emit('LexRules.lean', body)
+    def lex_group():
+        defs, rules = parse_lexer_l()
+        tokval = dict(tokens)
+        body = 'import Theo.Model.Regex\nnamespace Theo.LexGen\nopen Theo\n'
+        body += '/-- rules of lexer.l in order: (pattern, `some kind` | `none` for an empty action) -/\n'
+        body += 'def rules : List (Rx × Option Nat) := [\n'
+        lines = []
+        for pat, rx, kind, _ in rules:
+            if kind is not None and kind not in tokval:
+                raise Refuse('lexer.l: unknown token kind ' + kind)
+            lines.append('  (%s, %s)  -- %s' % (rx_lean(rx), 'none' if kind is None else 'some %d' % tokval[kind], pat))
+        body += ',\n'.join(l.split('  --')[0] for l in lines) + ']\n'
+        body += '/-\n' + '\n'.join(lines) + '\n-/\n'
+        # keyword table: every rule whose pattern is a finite set of literals
+        kws = []
+        for pat, rx, kind, _ in rules:
+            lits = rx_literals(rx)
+            if kind is not None and lits is not None:
+                for l in lits:
+                    kws.append((l, tokval[kind]))
+        body += '/-- every literal spelling of every rule with a finite language, with its token kind -/\n'
+        body += 'def keywords : List (Bytes × Nat) := [\n' + ',\n'.join('  (%s, %d)' % (lean_bytes(l), k) for l, k in kws) + ']\n'
+        body += 'end Theo.LexGen\n'
+        emit('LexRules.lean', body)
+    group(['LexRules.lean'], lex_group)
 
-    nts, grules, slotmap, cc, tt = parse_detector_grammar(tokens)
-    body = 'namespace Theo.DetGen\n'
-    body += '/-- non-terminals of the detector grammar, in creation order: %s -/\n' % ', '.join(nts)
-    body += 'def numNT : Nat := %d\n' % len(nts)
-    body += 'def macroNT : Nat := %d\n' % nts.index('MACRO')
-    body += '/-- the fixed rules: (lhs, rhs) with rhs symbols `(true, k)` = terminal k, `(false, n)` = non-terminal n -/\n'
-    body += 'def rules : List (Nat × List (Bool × Nat)) := [\n' + ',\n'.join(
-        '  (%d, [%s])' % (l, ', '.join('(%s, %d)' % ('true' if k == 't' else 'false', v) for k, v in r)) for l, r in grules) + ']\n'
-    body += '/-- template token kind ↦ non-terminal standing for the slot -/\n'
-    body += 'def slotNT : List (Nat × Nat) := [' + ', '.join('(%d, %d)' % p for p in slotmap) + ']\n'
-    body += '/-- rule-token kinds compared by text -/\ndef textKinds : List Nat := %s\n' % str(cc)
-    body += '/-- rule-token kinds that are slots -/\ndef slotKinds : List Nat := %s\n' % str(tt)
-    body += 'end Theo.DetGen\n'
-    emit('DetectorGrammar.lean', body)
+    def det_group():
+        nts, grules, slotmap, cc, tt = parse_detector_grammar(tokens)
+        body = 'namespace Theo.DetGen\n'
+        body += '/-- non-terminals of the detector grammar, in creation order: %s -/\n' % ', '.join(nts)
+        body += 'def numNT : Nat := %d\n' % len(nts)
+        body += 'def macroNT : Nat := %d\n' % nts.index('MACRO')
+        body += '/-- the fixed rules: (lhs, rhs) with rhs symbols `(true, k)` = terminal k, `(false, n)` = non-terminal n -/\n'
+        body += 'def rules : List (Nat × List (Bool × Nat)) := [\n' + ',\n'.join(
+            '  (%d, [%s])' % (l, ', '.join('(%s, %d)' % ('true' if k == 't' else 'false', v) for k, v in r)) for l, r in grules) + ']\n'
+        body += '/-- template token kind ↦ non-terminal standing for the slot -/\n'
+        body += 'def slotNT : List (Nat × Nat) := [' + ', '.join('(%d, %d)' % p for p in slotmap) + ']\n'
+        body += '/-- rule-token kinds compared by text -/\ndef textKinds : List Nat := %s\n' % str(cc)
+        body += '/-- rule-token kinds that are slots -/\ndef slotKinds : List Nat := %s\n' % str(tt)
+        body += 'end Theo.DetGen\n'
+        emit('DetectorGrammar.lean', body)
+    group(['DetectorGrammar.lean'], det_group)
 
     passes, stdtext, stdname, phrase, genstd, guards, rootfs = parse_consts()
     body = 'namespace Theo.ConstGen\n'
@@ -527,6 +608,8 @@ def main():
     body += 'def rootFsLine : Int := %d\n' % rootfs[1]
     body += 'end Theo.ConstGen\n'
     emit('Consts.lean', body)
+    for fb in FALLBACKS:
+        print('TRANSLATOR-FALLBACK: ' + fb)
     return 0
 
 
